@@ -52,6 +52,17 @@ Proof.
   apply Bool.andb_true_iff in E. destruct E as [E1 E2]. apply N.leb_le in E1. apply N.ltb_lt in E2. split; assumption.
 Qed.
 
+(* never a false absence: when the flattened tree holds an entry whose run covers the id, the walk finds a covering entry *)
+Theorem C04_present_never_absent : forall fetch lb d o l id fl e, wftree fetch lb d o l -> id < 2^63 ->
+  flatten fetch lb (S d) o l = Some fl -> In e fl -> covers id e = true ->
+  exists e', walk fetch lb (S d) o l id = WFound e' /\ covers id e' = true.
+Proof.
+  intros fetch lb d o l id fl e W Hid F Hin Hc. destruct (C04_walk fetch lb d o l id W Hid) as (fl' & A & B).
+  rewrite F in A. inversion A; subst fl'. destruct (cover fl id) as [e'|] eqn:E.
+  - exists e'. split; [exact B|]. unfold cover in E. apply find_some in E. apply E.
+  - exfalso. unfold cover in E. pose proof (find_none _ _ E e Hin) as N. rewrite Hc in N. discriminate.
+Qed.
+
 (* non-vacuity: a two-level tree (root with a tile entry, a leaf pointer and a run) is well formed; lookups by computation *)
 Definition ex_fetch (o l:N) : option (list entry) :=
   if o =? 127 then Some [mkE 0 0 4 1; mkE 5 0 9 0; mkE 100 4 4 3]
@@ -73,3 +84,4 @@ Print Assumptions C04_walk.
 Print Assumptions C04_loop_bounds.
 Print Assumptions C04_walk_server.
 Print Assumptions C04_never_other_tile.
+Print Assumptions C04_present_never_absent.
